@@ -301,7 +301,8 @@ func ReadResponse(br *bufio.Reader, method func() string) (m *Msg, err error, eo
 		return nil, err, false
 	}
 	code := m.Status()
-	noBody := method() == "HEAD" || code == 204 || code == 304 || code/100 == 1
+	mth := method()
+	noBody := mth == "HEAD" || (mth == "CONNECT" && code/100 == 2) || code == 204 || code == 304 || code/100 == 1
 	return m, m.readBody(br, true, noBody), false
 }
 
